@@ -347,6 +347,84 @@ def rebuild_hashes(d: str) -> Tuple[List[Dict[str, Any]], int]:
     return problems, n
 
 
+def relocated_outputs(d: str) -> Tuple[List[Dict[str, Any]], int]:
+    """closures whose definitions live in files / directories with 'special-looking' names: every output still carries the hash
+    of every message (the statement quantifies over every relocation AND every language output)"""
+    problems = []
+    n = 0
+    layouts = {"plain-subdir": "shared/rig_defs.yaml", "name-contains-core_defs": "shared/rig_core_defs.yaml", "dir-contains-core_defs": "lab_core_defs_v2/stim.yaml",
+               "name-starts-with-core": "core.yaml", "dir-named-defs": "core_defs_old/x.yaml"}
+    for label, rel in layouts.items():
+        wd = os.path.join(d, "rl_" + label)
+        prog = defx.Program({"root.yaml": {"imports": [rel], "message_defs": {"ROOTMSG": {"id": 3911, "fields": {"q": "int32"}}}},
+                             rel: {"struct_defs": STRUCTS, "message_defs": {"STIM_CONFIG": {"id": 3910, "fields": {"a": "int32", "h": "HS"}},
+                                                                           "STIM_SIG": {"id": 3912, "fields": None}}}})
+        try:
+            paths = defx.compile_program(prog, wd, name="gen")
+            p = defx.parse_model(paths["root"], import_coredefs=False)
+        except Exception as e:
+            problems.append({"kind": "relocation-rejected", "where": label, "exc": f"{type(e).__name__}: {str(e)[:150]}", "base": ["STIM_CONFIG", 3910, []]})
+            continue
+        want = {nme: int(m.hash[:8], 16) for nme, m in p.message_defs.items()}
+        try:
+            got = {"python": {nme: dd["hash"] for nme, dd in defx.sig_python(paths["python"])["defs"].items() if dd["msg"]},
+                   "c": {k[5:]: _hex(v) for k, v in defx.sig_c(paths["c_lang"], wd, defx.core_header(wd))["defines"].items() if k.startswith("HASH_")},
+                   "js": {k: int(v, 16) for k, v in (defx.sig_js([paths["javascript"]], wd)[paths["javascript"]].get("HASH") or {}).items()},
+                   "matlab": {k: int(v, 16) for k, v in (defx.run_matlab(paths["matlab"])["RTMA"].get("hash") or {}).items() if isinstance(v, str)}}
+        except core.HarnessError:
+            raise
+        except BaseException as e:
+            problems.append({"kind": "output-unreadable", "lang": "relocated:" + label, "exc": f"{type(e).__name__}: {str(e)[:160]}"})
+            continue
+        for lang, table in got.items():
+            for nme, h in want.items():
+                n += 1
+                if table.get(nme) != h:
+                    problems.append({"kind": "hash-differs-between-outputs", "lang": lang, "message": nme, "parser": hex(h),
+                                     "got": hex(table[nme]) if table.get(nme) is not None else None, "relocation": label})
+    return problems, n
+
+
+def reserved_field_names(d: str) -> Tuple[List[Dict[str, Any]], int]:
+    """a field may carry the name of one of the attributes the generated classes use themselves (type_hash, type_id, ...): either the
+    compiler refuses the definition, or every output and the wire still carry the definition's hash"""
+    from .. import clx, proto as P, valx
+
+    problems = []
+    n = 0
+    for fname in ("type_hash", "type_id", "type_size", "type_name", "type_source", "type_def", "hexdump", "size", "copy", "to_json", "pretty_print", "from_random"):
+        wd = os.path.join(d, "rf_" + fname)
+        prog = defx.Program({"root.yaml": {"message_defs": {"RSV": {"id": 3920, "fields": {"a": "int32", fname: "int32"}}}}})
+        try:
+            paths = defx.compile_program(prog, wd, name="gen_" + fname, outputs=("python", "c_lang", "javascript"))
+        except Exception:
+            continue  # refused: nothing to compare
+        n += 1
+        try:
+            p = defx.parse_model(paths["root"], import_coredefs=False)
+            want = int(p.message_defs["RSV"].hash[:8], 16)
+            mod = valx.import_generated(paths["python"], f"vf_c13_rf_{fname}_{os.getpid()}")
+            cls = mod.MDF_RSV
+            obj = cls()
+            setattr(obj, fname, 0xABCD) if fname not in ("size", "copy", "to_json", "pretty_print", "from_random", "hexdump") else None
+            sp = clx.ScriptedPeer(timecode=False)
+            try:
+                sp.client.send_message(obj)
+                frames, rest, prob = P.parse_stream(bytes(sp.peer.rx), False)
+            finally:
+                sp.close()
+            if len(frames) != 1 or frames[0].h[11] != want:
+                problems.append({"kind": "wire-version", "cls": f"MDF_RSV with a field called {fname}", "sent": hex(frames[0].h[11]) if frames else None, "type_hash": hex(want)})
+            chash = _hex(defx.sig_c(paths["c_lang"], wd, defx.core_header(wd))["defines"].get("HASH_RSV"))
+            if chash != want:
+                problems.append({"kind": "hash-differs-between-outputs", "lang": "c", "message": f"RSV({fname})", "parser": hex(want), "got": hex(chash) if chash is not None else None})
+        except core.HarnessError:
+            raise
+        except BaseException as e:
+            problems.append({"kind": "output-unreadable", "lang": f"python: accepted field name {fname}", "exc": f"{type(e).__name__}: {str(e)[:160]}"})
+    return problems, n
+
+
 def wire_versions(pyfile: str) -> Tuple[List[Dict[str, Any]], int]:
     """the version field the real Client puts on the wire for every class of the generated module and of core_defs"""
     from .. import clx, proto as P
@@ -431,6 +509,12 @@ def run(tier: str) -> int:
         p4, nrb = rebuild_hashes(d)
         allp += p4
         totals["rebuild_hash_comparisons"] = nrb
+        p5, nrl = relocated_outputs(d)
+        allp += p5
+        totals["relocated_output_comparisons"] = nrl
+        p6, nrf = reserved_field_names(d)
+        allp += p6
+        totals["accepted_reserved_field_names"] = nrf
         totals["cross_process_messages"] = nmsg
     finally:
         core.rmtree(d)
@@ -462,6 +546,12 @@ def replay(case) -> int:
             bs = bases()
             if p["kind"] == "hash-differs-between-processes":
                 hit, _ = cross_process(bs, d)
+            elif "relocation" in p or str(p.get("lang", "")).startswith("relocated:"):
+                hit, _ = relocated_outputs(d)
+                hit = [q for q in hit if q["kind"] == p["kind"]]
+            elif "field called" in str(p.get("cls", "")) or "RSV(" in str(p.get("message", "")) or "accepted field name" in str(p.get("lang", "")):
+                hit, _ = reserved_field_names(d)
+                hit = [q for q in hit if q["kind"] == p["kind"]]
             elif p["kind"] in ("hash-stale-after-rebuild", "rebuild-rejected"):
                 hit, _ = rebuild_hashes(d)
                 hit = [q for q in hit if q["kind"] == p["kind"]]
